@@ -75,6 +75,9 @@ class State:
         self.trace = []        # branch trace for obligation naming
         self.writes = []       # log of heap writes (oid/lid, field)
 
+    def writes_of(self, lst):
+        return [w for w in self.writes if w[0] == lst.lid]
+
     def assume(self, f):
         if f is True:
             return
@@ -119,7 +122,7 @@ def _clone(v, memo):
         memo[i] = n
         return n
     if isinstance(v, Many):
-        n = Many(v.ln, v.mk, v.fresh, v.label)
+        n = Many(v.ln, v.mk, v.fresh, v.label, v.indexed)
         memo[i] = n
         n.first = _clone(v.first, memo)
         n.last = _clone(v.last, memo)
@@ -227,6 +230,7 @@ class Exec:
         self.depth = 0
         self.inlined = set()
         self.assumed_calls = set()
+        self.used_assumptions = set()
         self.path_count = 0
         self.max_paths = 4000
         self.class_tags = {}
@@ -345,6 +349,9 @@ class Exec:
         return results
 
     def exec_stmt(self, s, st, fi, c):
+        hook = self.contracts.stmt_hooks.get(fi.qual)
+        if hook is not None:
+            hook(self, s, st, fi)
         m = getattr(self, 'st_' + type(s).__name__, None)
         if m is None:
             raise Unsupported('statement %s at %s:%d' % (
@@ -414,9 +421,20 @@ class Exec:
                 for st3 in self.assign(s.target, new, st2, fi):
                     yield st3, None
 
+    def _cond_states(self, test, st, fi, line):
+        """[(state, truth formula)] for a branch condition"""
+        snap_obl = len(self.obligations)
+        probe = st.clone()
+        try:
+            t = self.ev_truth(test, probe, fi)
+            return [(probe, t)]
+        except Unsupported:
+            del self.obligations[snap_obl:]
+        return [(s1, self.truth(v, s1, line))
+                for s1, v in self.ev(test, st, fi)]
+
     def st_If(self, s, st, fi, c):
-        for st1, v in self.ev(s.test, st, fi):
-            t = self.truth(v, st1, s.lineno)
+        for st1, t in self._cond_states(s.test, st, fi, s.lineno):
             if t is True:
                 yield from self.exec_block(s.body, st1, fi, c)
             elif t is False:
@@ -432,6 +450,31 @@ class Exec:
                 if self.feasible(st1):
                     yield from self.exec_block(s.orelse, st1, fi, c)
 
+    def merge_probe(self, st, probe, guard, npc):
+        """transfer what a guarded probe evaluation learned back into st:
+        new assumptions (under the guard) and memoised generic list reads
+        (objects created after the clone, so sharing them is sound)"""
+        for extra in probe.pc[npc:]:
+            st.assume(Implies(guard, extra))
+        pc_ = probe.ghost.get('$lcache')
+        if pc_:
+            mine = st.ghost.setdefault('$lcache', {})
+            for k, v in pc_.items():
+                if k not in mine:
+                    mine[k] = v
+
+    def implied(self, st, f):
+        """does the path condition imply f?  (small solver query)"""
+        if f is True:
+            return True
+        if f is False:
+            return False
+        s = z3.Solver()
+        s.set(timeout=2000)
+        s.add(*[zbool(p) for p in st.pc])
+        s.add(z3.Not(zbool(f)))
+        return s.check() == z3.unsat
+
     def feasible(self, st):
         """cheap pruning of dead paths (sound: only drops paths whose path
         condition is unsatisfiable)"""
@@ -446,10 +489,58 @@ class Exec:
     prune = True
 
     def st_Try(self, s, st, fi, c):
-        h = self.contracts.try_handlers.get((fi.qual, s.lineno))
-        # default: body may raise at any point -> handler runs on a havocked
-        # state.  Supported shapes are described by the contract.
-        raise Unsupported('try at %s:%d' % (fi.qual, s.lineno))
+        """try/except: an exception may be raised at the start of any
+        statement of the body (no partial effects of that statement); the
+        handler then runs on the state reached so far.  `safe:` obligations
+        raised inside a body guarded by a bare / Exception handler are
+        dropped, the failure would be caught.  finally/else unsupported."""
+        if s.finalbody or s.orelse or len(s.handlers) != 1:
+            raise Unsupported('try shape at %s:%d' % (fi.qual, s.lineno))
+        h = s.handlers[0]
+        catches_all = h.type is None or (
+            isinstance(h.type, ast.Name) and h.type.id in ('Exception',
+                                                           'BaseException'))
+        if h.name is not None:
+            raise Unsupported('except ... as at %d' % s.lineno)
+        results = []
+        handler_entries = []
+        cur = [st]
+        for stmt in s.body:
+            nxt = []
+            for st1 in cur:
+                if self.may_raise(stmt, catches_all, h):
+                    e = st1.clone()
+                    e.trace.append('exc@%d' % stmt.lineno)
+                    handler_entries.append(e)
+                nobl = len(self.obligations)
+                for st2, sig in self.exec_stmt(stmt, st1, fi, c):
+                    if sig is None:
+                        nxt.append(st2)
+                    else:
+                        results.append((st2, sig))
+                if catches_all:
+                    self.obligations[nobl:] = [
+                        o for o in self.obligations[nobl:]
+                        if ':safe:' not in o.name]
+            cur = nxt
+        results += [(s1, None) for s1 in cur]
+        for e in handler_entries:
+            results += self.exec_block(h.body, e, fi, c)
+        yield from results
+
+    def may_raise(self, stmt, catches_all, handler):
+        """does this statement contain an operation that can raise an
+        exception the handler catches?  Calls and subscripts can."""
+        for n in ast.walk(stmt):
+            if isinstance(n, (ast.Call, ast.Subscript, ast.With)):
+                return True
+        return False
+
+    def st_With(self, s, st, fi, c):
+        hook = self.contracts.with_hook
+        if hook is None:
+            raise Unsupported('with at %s:%d' % (fi.qual, s.lineno))
+        yield from hook(self, s, st, fi, c)
 
     def st_While(self, s, st, fi, c):
         yield from self.loop(s, st, fi, c)
@@ -458,11 +549,69 @@ class Exec:
         yield from self.loop(s, st, fi, c)
 
     # ---------------------------------------------------------------- loops
+    def try_map_pattern(self, s, st, fi):
+        """for t in L: t.a = e1; t.b = e2   (e_i do not mention t)
+        is executed as an in-place map over the summarised list L."""
+        if not (isinstance(s, ast.For) and isinstance(s.target, ast.Name)):
+            return None
+        t = s.target.id
+        stores = []
+        for b in s.body:
+            if not (isinstance(b, ast.Assign) and len(b.targets) == 1 and
+                    isinstance(b.targets[0], ast.Attribute) and
+                    isinstance(b.targets[0].value, ast.Name) and
+                    b.targets[0].value.id == t):
+                return None
+            for n in ast.walk(b.value):
+                if isinstance(n, ast.Name) and n.id == t:
+                    return None
+                if isinstance(n, ast.Call):
+                    return None
+            stores.append((b.targets[0].attr, b.value, b.lineno))
+        its = list(self.ev(s.iter, st, fi))
+        if len(its) != 1 or not isinstance(its[0][1], TokList):
+            return None
+        st1, lst = its[0]
+        vals = [(a, self.ev1(v, st1, fi), ln) for a, v, ln in stores]
+        ex = self
+        new = []
+        for sg in lst.segs:
+            if isinstance(sg, Single):
+                for a, v, ln in vals:
+                    self.store_attr(sg.obj, a, v, st1, ln)
+                new.append(sg)
+            else:
+                if not sg.fresh:
+                    hook = self.contracts.store_hook
+                    probe = sg.mk(GuardedState(st1, zint(sg.ln) > 0))
+                    if hook:
+                        g = st1.clone()
+                        g.assume(zint(sg.ln) > 0)
+                        for a, v, ln in vals:
+                            hook(self, g, probe, a, v, ln)
+
+                def mk(s1, sg=sg, vals=vals):
+                    o = sg.mk(s1)
+                    for a, v, ln in vals:
+                        o.fields[a] = v
+                    return o
+                m = Many(sg.ln, mk, sg.fresh, sg.label + '+map')
+                new.append(m)
+        lst.segs[:] = new
+        st1.mut += 1
+        st1.writes.append((lst.lid, '$list'))
+        return st1
+
     def loop(self, s, st, fi, c):
         if s.orelse:
             raise Unsupported('loop else at %d' % s.lineno)
         ordinal = fi.loop_nodes().index(s)
         spec = c.loops.get(ordinal)
+        if spec is None:
+            r = self.try_map_pattern(s, st, fi)
+            if r is not None:
+                yield r, None
+                return
         if spec is None:
             raise Unsupported('no loop contract for %s loop %d (line %d)' % (
                 fi.qual, ordinal, s.lineno))
@@ -482,7 +631,8 @@ class Exec:
             targets = [n for n in _assigned_names(s) if n not in spec.keep]
             mark = sym.uid()
             nwr = len(st0.writes)
-            hav = self.havoc_set(st0, list(targets) + list(spec.modifies))
+            hav = self.havoc_set(st0, list(targets) + list(spec.modifies) +
+                                  list(spec.shapes))
             h = st0.clone()
             h.trace.append(tag)
             if is_for:
@@ -493,7 +643,7 @@ class Exec:
             self.assume_invs(spec, h)
             # 3a. exit path
             x = h.clone()
-            x.trace.append(tag + ':exit')
+            x.trace.append(tag + '.exit')
             if is_for:
                 it.rebind(x).at_exit(x)
                 exits = [x]
@@ -510,7 +660,7 @@ class Exec:
                     yield x1, None
             # 3b. body path
             b = h
-            b.trace.append(tag + ':body')
+            b.trace.append(tag + '.body')
             if is_for:
                 bodies = list(it.enter_body(b))
             else:
@@ -564,7 +714,12 @@ class Exec:
         for name, fn in spec.invs:
             self.prove(st, '%s:%s@%s' % (label, name, _tr(st)), fn(E), line)
         for name, sp in spec.shapes.items():
-            v = self.lookup_path(st, name)
+            try:
+                v = self.lookup_path(st, name)
+            except KeyError:
+                if 'inv-init' in label:
+                    continue        # first assigned inside the loop
+                raise
             if callable(sp) and not hasattr(sp, 'check'):
                 sp = sp(E)
             sp.check(self, st, v, '%s:shape:%s@%s' % (label, name, _tr(st)),
@@ -798,7 +953,19 @@ class Exec:
                     else:
                         break
         # general: element described by a case split over the segments,
-        # merged into one generic value through `merge_values`
+        # merged into one generic value through `merge_values`.  Reads are
+        # memoised per index term until the list is written.
+        key = (len(st.writes_of(lst)), zint(i).sexpr())
+        cache = st.ghost.setdefault('$lcache', {})
+        ck = (lst.lid,) + key
+        if ck in cache:
+            return cache[ck]
+        r = self._list_get_general(lst, i, n, st, line)
+        cache[ck] = r
+        return r
+
+    def _list_get_general(self, lst, i, n, st, line):
+        segs = lst.segs
         idx = zint(i)
         idx = z3.If(idx < 0, idx + zint(n), idx)
         off = 0
@@ -811,12 +978,18 @@ class Exec:
             else:
                 # first / last of a Many segment are memoised
                 if isinstance(i, int) and i == 0 and sg is segs[0]:
-                    cands.append((cond, self.seg_first(sg, st)))
+                    e0 = self.seg_first(sg, st)
+                    if sg.indexed:
+                        sg.indexed(GuardedState(st, cond), idx, e0)
+                    cands.append((cond, e0))
                 elif isinstance(i, int) and i == -1 and sg is segs[-1]:
-                    cands.append((cond, self.seg_last(sg, st)))
+                    e0 = self.seg_last(sg, st)
+                    if sg.indexed:
+                        sg.indexed(GuardedState(st, cond), idx, e0)
+                    cands.append((cond, e0))
                 else:
                     sub = st.clone() if False else st
-                    cands.append((cond, ('many', sg)))
+                    cands.append((cond, ('many', sg, idx)))
             off = off + ln
         return self.merge_cands(cands, st, line)
 
@@ -836,9 +1009,13 @@ class Exec:
         # instantiate Many candidates under their guard
         inst = []
         for cond, v in live:
-            if isinstance(v, tuple) and len(v) == 2 and v[0] == 'many':
+            if isinstance(v, tuple) and len(v) >= 2 and v[0] == 'many':
                 g = GuardedState(st, cond)
-                v = v[1].mk(g)
+                sg = v[1]
+                ix = v[2] if len(v) > 2 else None
+                v = sg.mk(g)
+                if sg.indexed and ix is not None:
+                    sg.indexed(g, ix, v)
             inst.append((cond, v))
         if len(inst) == 1:
             return inst[0][1]
@@ -955,6 +1132,45 @@ class Exec:
                 type(node).__name__, fi.qual, getattr(node, 'lineno', 0)))
         return m(node, st, fi)
 
+    def ev_truth(self, node, st, fi):
+        """truth value of a condition without forking: and/or/not are
+        combined as formulas, the right operand is evaluated under the guard
+        of the left one (its safety obligations carry the guard).  Raises
+        Unsupported if a sub-expression forks or mutates the heap."""
+        line = getattr(node, 'lineno', 0)
+        if isinstance(node, ast.BoolOp):
+            is_and = isinstance(node.op, ast.And)
+            acc = None
+            guard = True
+            for v in node.values:
+                if guard is True:
+                    t = self.ev_truth(v, st, fi)
+                elif guard is False:
+                    break
+                else:
+                    probe = st.clone()
+                    probe.assume(guard)
+                    npc = len(probe.pc)
+                    mut = probe.mut
+                    t = self.ev_truth(v, probe, fi)
+                    if probe.mut != mut:
+                        raise Unsupported('mutation in condition at %d' %
+                                          line)
+                    self.merge_probe(st, probe, guard, npc)
+                acc = t if acc is None else (And(acc, t) if is_and
+                                             else Or(acc, t))
+                guard = And(guard, t) if is_and else And(guard, Not(t))
+            return acc
+        if isinstance(node, ast.UnaryOp) and isinstance(node.op, ast.Not):
+            return Not(self.ev_truth(node.operand, st, fi))
+        mut = st.mut
+        r = list(self.ev(node, st, fi))
+        if len(r) != 1:
+            raise Unsupported('forking expression at %d' % line)
+        if r[0][0] is not st:
+            raise Unsupported('state replaced in condition at %d' % line)
+        return self.truth(r[0][1], st, line)
+
     def ev1(self, node, st, fi):
         """evaluate an expression that must not fork"""
         r = list(self.ev(node, st, fi))
@@ -1034,6 +1250,11 @@ class Exec:
             self.prove(st, 'safe:none-deref@%d' % line, Not(o.isnone), line)
             o = o.obj
         if isinstance(o, Obj):
+            hook = self.contracts.attr_hook
+            if hook:
+                r = hook(self, st, o, attr, line)
+                if r is not NotImplemented:
+                    return r
             if attr in o.fields:
                 return o.fields[attr]
             # method?
@@ -1099,8 +1320,7 @@ class Exec:
                 if tb is not None and (is_bool(a) or True):
                     # merge: assumptions made while evaluating b are kept
                     # under the guard g
-                    for extra in stb.pc[npc:]:
-                        st1.assume(Implies(g, extra))
+                    self.merge_probe(st1, stb, g, npc)
                     # values: python returns a or b themselves; we only
                     # merge when the result is used as a truth value or both
                     # are bools
@@ -1146,10 +1366,8 @@ class Exec:
                         ra[0][0].mut == st1.mut and rb[0][0].mut == st1.mut:
                     mv = merge_pair(self, t, ra[0][1], rb[0][1], st1)
                     if mv is not NotImplemented:
-                        for extra in ra[0][0].pc[npc:]:
-                            st1.assume(Implies(t, extra))
-                        for extra in rb[0][0].pc[npc:]:
-                            st1.assume(Implies(Not(t), extra))
+                        self.merge_probe(st1, ra[0][0], t, npc)
+                        self.merge_probe(st1, rb[0][0], Not(t), npc)
                         yield st1, mv
                         continue
                 yield from ra
@@ -1620,6 +1838,8 @@ class Exec:
         if isinstance(v, Opaque) and v.data is not None and \
                 'truth' in v.data:
             return v.data['truth']
+        if hasattr(v, 'truth_value'):
+            return v.truth_value(self, st)
         raise Unsupported('truth value of %r at %d' % (v, line))
 
     # ----------------------------------------------------------------- calls
@@ -1672,7 +1892,9 @@ class OptVal:
 class StrSet:
     """abstract set/list of strings with an uninterpreted membership
     predicate; `known` are members, `known_not` non-members"""
-    def __init__(self, name, known=(), known_not=(), exact=False):
+    def __init__(self, name, known=(), known_not=(), exact=False,
+                 maxlen=None):
+        self.maxlen = maxlen
         self.name = name
         self.fn = z3.Function('in_' + name, sym.A, sym.I, sym.B)
         self.known = list(known)
@@ -1689,6 +1911,9 @@ class StrSet:
         if self.exact:
             return Or(*[sym.seq_eq(x, k) for k in self.known])
         b = self.fn(x.arr, zint(x.ln))
+        if self.maxlen is not None:
+            st.assume(Implies(b, And(zint(x.ln) >= 1,
+                                     zint(x.ln) <= self.maxlen)))
         # consistency with the known members / non-members
         for k in self.known:
             st.assume(Implies(sym.seq_eq(x, k), b))
